@@ -98,6 +98,9 @@ class NetWorld(World):
         self.tc = tc
         self.gcseam = GCSeam()
         self.names = NameSeam()
+        from sim.engine import hash_int
+
+        self.names.seed_uuid4(hash_int("uuid4", knobs.get("max_steps"), knobs.get("fault_rate"), ",".join(knobs.get("faults", []))) % (2**31))
         self.alloc = SimAlloc(stats)
         self.alloc.lazy_reuse = True  # every network is keyed in the op that creates it (see _add_net)
         alloc = self.alloc
@@ -198,7 +201,8 @@ class NetWorld(World):
             if f == "restart":
                 return {"k": "restart", "net": r.randrange(n), "how": r.choice(["pickle", "deepcopy", "copy_deep"])}
             if f == "fork":
-                return {"k": "fork_names", "back": r.randrange(1, 6)}
+                return {"k": "fork_build", "specs": [self._new_tensor_spec(r) for _ in range(r.choice([2, 3]))],
+                        "rewrites": r.choice([1, 1, 2]), "a": r.randrange(1 << 16), "b": r.randrange(1 << 16)}
         if self.parked and r.random() < 0.2:
             return {"k": "collect", "then_reuse": r.random() < 0.5}
         table = [(k, w) for k, w in self.TABLES[kn["table"]].items()]
@@ -1168,6 +1172,37 @@ class NetWorld(World):
         self.nets[i] = new
         del tn
         self.stats.fault("restart_" + how)
+
+    def _op_fork_build(self, op):
+        """Fault 'fork': a network is built by a real os.fork() child (as a
+        multiprocessing worker would) and comes back pickled.  The child starts
+        from the parent's interpreter state, name generator included, so the
+        names it generates are the ones the parent will generate next - unless
+        the library re-seeds its generator in forked children."""
+        from sim.seams import run_in_forked_child
+
+        qtn = self.qtn
+
+        def build():
+            ts = [self._tensor(s_) for s_ in op["specs"]]
+            tn = qtn.TensorNetwork(ts)
+            # rewrites that generate bond names in the child
+            for n in range(op["rewrites"]):
+                tids = [tid for tid in sorted(tn.tensor_map) if len(tn.tensor_map[tid].inds) >= 2
+                        and len(set(tn.tensor_map[tid].inds)) == len(tn.tensor_map[tid].inds)]
+                if not tids:
+                    break
+                tid = tids[(op["a"] + n) % len(tids)]
+                t = tn.tensor_map[tid]
+                tn._split_tensor_tid(tid, left_inds=t.inds[:1], cutoff=0.0)
+            return tn
+
+        st, tn = self.call(lambda: run_in_forked_child(build))
+        if st == "rejected":
+            raise Skip()
+        self._add_net(tn)
+        self._normalise_sizes()
+        self.stats.fault("network_built_in_forked_child")
 
     def _op_fork_names(self, op):
         self.names.rewind(max(0, self.names.count - op["back"]))
